@@ -82,10 +82,13 @@ def tc_cfg(trees, mech, maxlen, record, invs, recs="TRUE, FALSE", withset=True):
 
 
 def tree_model(ctx):
-    depth = 4 if ctx.tier == "thorough" else 3
     both = ["ball", "kd"]
-    ctx.tlc_ok("TreeCache", tc_cfg(both, "MechIntended", depth, False, ["TypeOK", "HandBack", "Coherent", "StableHandle"]), what="intended mechanism: HandBack, Coherent, StableHandle, depth %d" % depth)
-    ctx.tlc_ok("TreeCache", tc_cfg(both, "MechObserved", depth, False, ["TypeOK", "HandBack", "Coherent"]), what="mechanism as transcribed from the code: HandBack, Coherent, depth %d" % depth)
+    scopes = [(both, 3)]
+    if ctx.tier == "thorough":
+        scopes += [(["ball"], 4), (["kd"], 4)]
+    for trees, depth in scopes:
+        ctx.tlc_ok("TreeCache", tc_cfg(trees, "MechIntended", depth, False, ["TypeOK", "HandBack", "Coherent", "StableHandle"]), what="intended mechanism: HandBack, Coherent, StableHandle; %s, depth %d" % ("+".join(trees), depth))
+        ctx.tlc_ok("TreeCache", tc_cfg(trees, "MechObserved", depth, False, ["TypeOK", "HandBack", "Coherent"]), what="mechanism as transcribed from the code: HandBack, Coherent; %s, depth %d" % ("+".join(trees), depth))
     # the two ways the mechanism is expected to fall short / did fall short: TLC must find them
     r = ctx.tlc("TreeCache", tc_cfg(both, "MechObserved", 3, False, ["StableHandle"]), what="observed mechanism: StableHandle (expected to be refuted: the handle is the cached object)", count=False)
     if r.violated != "StableHandle":
@@ -586,9 +589,11 @@ def run_group(grp):
             if exact and len(qs) > 1:
                 cid0 = "%s|%s|%s|%s|%d" % (grp["gid"], variant, kind, sg, 0)
                 r = X.radius_for(grp["plans"][cid0], runit, min(1, max(grp["plans"][cid0]["cls"])))
+                if r is None:
+                    r = X.radius_for(grp["plans"][cid0], runit, 0)
                 try:
-                    res = call_radius(tree, system, h, pres, r, unit)
-                    for qi, q in enumerate(qs):
+                    res = call_radius(tree, system, h, pres, r, unit) if r is not None else []
+                    for qi, q in enumerate(qs if r is not None else []):
                         cid = "%s|%s|%s|%s|%d" % (grp["gid"], variant, kind, sg, qi)
                         c = X.class_of_radius(grp["plans"][cid], runit, r)
                         if c is not None:
